@@ -174,17 +174,25 @@ impl TypedProgram {
         // Sort by the meta information of the const defs so we iterate them in the order that
         // they occur in the source code
         sorted_const_defs.sort_by_key(|(_name, const_def)| const_def.meta);
+        // The values of all numeric constants, evaluated in source order (so that later constants
+        // can refer to earlier ones) in wrapping arithmetic of the declared type:
         for (const_name, const_def) in sorted_const_defs.iter().copied() {
-            if let Type::Unsigned(UnsignedNumType::Usize) = const_def.ty {
-                if let ConstExpr(ConstExprEnum::ExternalValue { party, identifier }, _) =
-                    &const_def.value
-                {
-                    let identifier = format!("{party}::{identifier}");
-                    const_sizes.insert(const_name.clone(), *const_sizes.get(&identifier).unwrap());
+            match const_def.ty {
+                Type::Unsigned(ty) => {
+                    let bits = const_def.ty.size_in_bits_for_defs(self, &const_sizes);
+                    let n =
+                        resolve_typed_const_expr_unsigned(&const_def.value, &consts_unsigned, bits);
+                    if let UnsignedNumType::Usize = ty {
+                        const_sizes.insert(const_name.clone(), n as usize);
+                    }
+                    consts_unsigned.insert(const_name.clone(), n);
                 }
-                let n = resolve_const_expr_unsigned(&const_def.value, &consts_unsigned);
-                const_sizes.insert(const_name.clone(), n as usize);
-                consts_unsigned.insert(const_name.clone(), n);
+                Type::Signed(_) => {
+                    let bits = const_def.ty.size_in_bits_for_defs(self, &const_sizes);
+                    let n = resolve_typed_const_expr_signed(&const_def.value, &consts_signed, bits);
+                    consts_signed.insert(const_name.clone(), n);
+                }
+                _ => {}
             }
         }
 
@@ -275,8 +283,7 @@ impl TypedProgram {
                 | ConstExprEnum::Add(_, _)
                 | ConstExprEnum::Sub(_, _) => {
                     if let Type::Unsigned(_) = const_def.ty {
-                        let result =
-                            resolve_const_expr_unsigned(&const_def.value, &consts_unsigned);
+                        let result = *consts_unsigned.get(const_name).unwrap();
                         let mut bits = Vec::with_capacity(
                             const_def
                                 .ty
@@ -292,7 +299,7 @@ impl TypedProgram {
                         let bits = bits.into_iter().map(|b| b as usize).collect();
                         env.let_in_current_scope(const_name.clone(), bits);
                     } else {
-                        let result = resolve_const_expr_signed(&const_def.value, &consts_signed);
+                        let result = *consts_signed.get(const_name).unwrap();
                         let mut bits = Vec::with_capacity(
                             const_def
                                 .ty
@@ -363,7 +370,70 @@ macro_rules! make_resolve_const_function {
 
 make_resolve_const_function!(resolve_const_expr_usize, usize);
 make_resolve_const_function!(resolve_const_expr_unsigned, u64);
-make_resolve_const_function!(resolve_const_expr_signed, i64);
+
+/// Evaluates a const expression of an unsigned type with the specified number of bits (using
+/// wrapping arithmetic of that type), looking up external values and earlier constants in `consts`.
+fn resolve_typed_const_expr_unsigned(
+    ConstExpr(expr, _): &ConstExpr,
+    consts: &HashMap<String, u64>,
+    bits: usize,
+) -> u64 {
+    let wrap = |n: u64| if bits >= 64 { n } else { n & ((1 << bits) - 1) };
+    let resolve = |e: &ConstExpr| resolve_typed_const_expr_unsigned(e, consts, bits);
+    match expr {
+        ConstExprEnum::NumUnsigned(n, _) => wrap(*n),
+        ConstExprEnum::ExternalValue { party, identifier } => {
+            wrap(*consts.get(&format!("{party}::{identifier}")).unwrap())
+        }
+        ConstExprEnum::ConstExprIdent(ident) => wrap(
+            *consts
+                .get(ident)
+                .expect("Identifier existence checked during type cheking"),
+        ),
+        ConstExprEnum::Max(args) => args.iter().map(resolve).max().unwrap_or(0),
+        ConstExprEnum::Min(args) => args.iter().map(resolve).min().unwrap_or(wrap(u64::MAX)),
+        ConstExprEnum::Add(lhs, rhs) => wrap(resolve(lhs).wrapping_add(resolve(rhs))),
+        ConstExprEnum::Sub(lhs, rhs) => wrap(resolve(lhs).wrapping_sub(resolve(rhs))),
+        ConstExprEnum::True | ConstExprEnum::False | ConstExprEnum::NumSigned(_, _) => {
+            panic!("Not an unsigned const expr: {expr:?}")
+        }
+    }
+}
+
+/// Evaluates a const expression of a signed type with the specified number of bits (using
+/// wrapping arithmetic of that type), looking up external values and earlier constants in `consts`.
+fn resolve_typed_const_expr_signed(
+    ConstExpr(expr, _): &ConstExpr,
+    consts: &HashMap<String, i64>,
+    bits: usize,
+) -> i64 {
+    let wrap = |n: i64| {
+        if bits >= 64 {
+            n
+        } else {
+            (n << (64 - bits)) >> (64 - bits)
+        }
+    };
+    let resolve = |e: &ConstExpr| resolve_typed_const_expr_signed(e, consts, bits);
+    match expr {
+        ConstExprEnum::NumSigned(n, _) => wrap(*n),
+        ConstExprEnum::ExternalValue { party, identifier } => {
+            wrap(*consts.get(&format!("{party}::{identifier}")).unwrap())
+        }
+        ConstExprEnum::ConstExprIdent(ident) => wrap(
+            *consts
+                .get(ident)
+                .expect("Identifier existence checked during type cheking"),
+        ),
+        ConstExprEnum::Max(args) => args.iter().map(resolve).max().unwrap_or(wrap(i64::MIN)),
+        ConstExprEnum::Min(args) => args.iter().map(resolve).min().unwrap_or(wrap(i64::MAX)),
+        ConstExprEnum::Add(lhs, rhs) => wrap(resolve(lhs).wrapping_add(resolve(rhs))),
+        ConstExprEnum::Sub(lhs, rhs) => wrap(resolve(lhs).wrapping_sub(resolve(rhs))),
+        ConstExprEnum::True | ConstExprEnum::False | ConstExprEnum::NumUnsigned(_, _) => {
+            panic!("Not a signed const expr: {expr:?}")
+        }
+    }
+}
 
 fn compile_block(
     stmts: &[TypedStmt],
